@@ -1,6 +1,7 @@
 """C19 -- a failed or interrupted save never costs the last good save or poisons loading.
 
-Implementation side: REAL nodes (two function-node classes and a Workflow) are saved into a
+Implementation side: REAL nodes (two function-node classes, a Workflow, and two distinct
+hand-written Function subclasses that share module and qualified name) are saved into a
 fresh temporary directory per case (the process chdir()s into it), with picklable content,
 content only cloudpickle can serialise (a lambda) and content neither pickler can serialise
 (a threading.Lock).  A crash is injected by running the save in a forked child whose
@@ -39,7 +40,9 @@ MAXSTEP = 12                          # a save has at most 11 primitive steps
 RULE = ("histories of 1-9 operations over four save locations (default <label>/picklestorage, <label>/recovery as an "
         "absolute Path, 'sub/fn' and the bare 'fn' as strings): saves of picklable / cloudpickle-only / unserialisable "
         "content with and without cloudpickle_fallback, each possibly interrupted at any primitive step (write cut at "
-        "0, 1, mid, len-1 bytes), Node.load into nodes of the same or another class, construction with autoload / "
+        "0, 1, mid, len-1 bytes), Node.load into nodes of the same or another class (two function-node classes, "
+        "Workflow, and two DISTINCT Function subclasses sharing module and qualified name; every ordered pair "
+        "saver/loader via explicit name, default name and autoload), construction with autoload / "
         "delete_existing_savefiles, delete_storage, foreign files; plus the exhaustive family prior-state x content x "
         "every crash point followed by load, autoload and delete.  Non-trivial = contains a failing or interrupted "
         "save, a class-mismatching load or a delete; distinct = distinct op lists")
@@ -71,7 +74,40 @@ def C19B(x=0):
 
 
 _LAMBDA = lambda: 0   # noqa: E731  -- not picklable by reference (qualname <lambda>); cloudpickle takes it by value
-CLASSES = {"A": C19A, "B": C19B, "W": Workflow}
+
+
+def _make_calc(kind):
+    """two calls give two UNRELATED node classes with the same module and the same qualified name
+    (`_make_calc.<locals>.Calc`); hand-written Function subclasses, so each one round-trips through
+    cloudpickle (by value: plain pickle cannot reach a local class) to exactly itself"""
+    from pyiron_workflow.nodes.function import Function
+    if kind == "p":
+
+        class Calc(Function):
+            @staticmethod
+            def node_function(x=0):
+                y = x
+                return y
+
+    else:
+
+        class Calc(Function):
+            @staticmethod
+            def node_function(x=0, z=5):
+                y = x
+                return y
+
+    return Calc
+
+
+CalcP, CalcQ = _make_calc("p"), _make_calc("q")
+assert CalcP is not CalcQ and (CalcP.__module__, CalcP.__qualname__) == (CalcQ.__module__, CalcQ.__qualname__)
+import cloudpickle as _cloudpickle  # noqa: E402
+# give both classes their cloudpickle tracker id NOW, so that a dump made by a forked child and read back
+# by this process is recognised as the very same class
+_cloudpickle.dumps(CalcP), _cloudpickle.dumps(CalcQ)
+CLASSES = {"A": C19A, "B": C19B, "W": Workflow, "P": CalcP, "Q": CalcQ}
+LOCAL = ("P", "Q")    # classes plain pickle cannot serialise: every save of theirs goes to cloudpickle
 
 
 # ---- tracing / crash injection -------------------------------------------------------------
@@ -232,7 +268,12 @@ def _make(cls, v=0, kind="ok"):
 
 
 def _cname(inst):
-    return {"C19A": "A", "C19B": "B", "Workflow": "W"}.get(type(inst).__name__, type(inst).__name__)
+    t = type(inst)
+    if t is CalcP:
+        return "P"
+    if t is CalcQ:
+        return "Q"
+    return {"C19A": "A", "C19B": "B", "Workflow": "W"}.get(t.__name__, t.__name__)
 
 
 def _state(inst):
@@ -517,7 +558,13 @@ def _cloc(loc):
 
 
 def _ccls(c):
-    return {"A": "CA", "B": "CB", "W": "CW"}[c]
+    return {"A": "CA", "B": "CB", "W": "CW", "P": "CP", "Q": "CQ"}[c]
+
+
+def _ekind(cls, kind):
+    """what the picklers can do with the node as a whole: a node of a local class is out of reach of plain
+    pickle whatever its content"""
+    return "cloud" if (cls in LOCAL and kind == "ok") else kind
 
 
 def op_coq(op):
@@ -525,7 +572,7 @@ def op_coq(op):
     if k == "save":
         _, loc, cls, v, kind, fb, crash = op
         cr = "None" if crash is None else f"(Some ({cn(crash[0])}, {cn(crash[1])}))"
-        kk = {"ok": "KOk", "cloud": "KCloud", "bad": "KBad"}[kind]
+        kk = {"ok": "KOk", "cloud": "KCloud", "bad": "KBad"}[_ekind(cls, kind)]
         return f"OSave {_cloc(loc)} {cb(fb)} {_ccls(cls)} {cz(v)} {kk} {cn(NBYTES)} {cn(NBYTES)} {cr}"
     if k == "load":
         return f"OLoad {_cloc(op[1])} {_ccls(op[2])} {cz(op[3])}"
@@ -555,7 +602,10 @@ def _rand_save(rng, loc, v, crash_p=0.45):
     crash = None
     if rng.random() < crash_p:
         crash = [rng.randrange(0, MAXSTEP), rng.randrange(0, 4)]
-    return ["save", loc, rng.choice(["A", "A", "B", "W"]), v, kind, fb, crash]
+    cls = rng.choice(["A", "A", "A", "B", "W", "P", "Q"])
+    if cls in LOCAL:
+        fb = True     # without the fallback _save refuses a non-importable class up front (TypeNotFoundError): not modelled
+    return ["save", loc, cls, v, kind, fb, crash]
 
 
 def _rand_case(rng):
@@ -572,13 +622,15 @@ def _rand_case(rng):
             op = _rand_save(rng, loc, v)
             if loc in last_cls and rng.random() < 0.7:
                 op[2] = last_cls[loc]           # mostly the same graph saved again
+            if op[2] in LOCAL:
+                op[5] = True
             last_cls[loc] = op[2]
             ops.append(op)
         elif r < 0.66:
-            cls = last_cls.get(loc, "A") if rng.random() < 0.65 else rng.choice(["A", "B", "W"])
+            cls = last_cls.get(loc, "A") if rng.random() < 0.6 else rng.choice(["A", "B", "W", "P", "Q"])
             ops.append(["load", loc, cls, 100 + v])
         elif r < 0.78:
-            cls = last_cls.get("default", "A") if rng.random() < 0.7 else rng.choice(["A", "B", "W"])
+            cls = last_cls.get("default", "A") if rng.random() < 0.65 else rng.choice(["A", "B", "W", "P", "Q"])
             ops.append(["ctor", cls, rng.random() < 0.25, rng.random() < 0.85])
         elif r < 0.93:
             ops.append(["delete", loc])
@@ -616,13 +668,27 @@ def _family(locs):
     return out
 
 
+def _class_family():
+    """every ordered pair (class that saved, class that loads) -- including the two distinct classes that share
+    module and qualified name -- through an explicit file name, the shared default file name, and autoload"""
+    out = []
+    names = ["A", "B", "W", "P", "Q"]
+    for i, a in enumerate(names):
+        for b in names:
+            v = 3 + i
+            out.append({"ops": [["save", "sub", a, v, "ok", True, None], ["load", "sub", b, 60]]})
+            out.append({"ops": [["save", "default", a, v, "ok", True, None], ["load", "default", b, 60],
+                                ["ctor", b, False, True]]})
+    return out
+
+
 def generate(ctx):
     rng = ctx.rng
     fam = _family(["default"] if ctx.quick else LOCS)
     if ctx.quick:
         fam = fam + rng.sample(_family(["flat", "rec", "sub"]), 120)
     cases, seen = [], set()
-    for c in fam:
+    for c in _class_family() + fam:
         k = json.dumps(c, sort_keys=True)
         if k not in seen:
             seen.add(k)
@@ -671,7 +737,7 @@ def _judge(case, obs):
         if k == "save":
             _, loc, cls, v, kind, fb, crash = op
             res = o[1]
-            serial = kind == "ok" or (kind == "cloud" and fb)
+            serial = _ekind(cls, kind) == "ok" or (_ekind(cls, kind) == "cloud" and fb)
             got = rows[loc][5]
             if res == "crashed":
                 allowed = [_want(exp[loc])] + ([[cls, v]] if serial else [])
@@ -773,8 +839,16 @@ def known(case, obs, verdict):
 
 
 def nontrivial(case, obs):
+    saved = {}
     for op in case["ops"]:
-        if op[0] == "save" and (op[6] is not None or op[4] == "bad" or (op[4] == "cloud" and not op[5])):
+        if op[0] == "save":
+            saved[op[1]] = op[2]
+        if op[0] == "load" and saved.get(op[1], op[2]) != op[2]:
+            return True
+        if op[0] == "ctor" and saved.get("default", op[1]) != op[1]:
+            return True
+    for op in case["ops"]:
+        if op[0] == "save" and (op[6] is not None or op[4] == "bad" or (_ekind(op[2], op[4]) == "cloud" and not op[5])):
             return True
         if op[0] == "delete":
             return True
@@ -790,6 +864,8 @@ def shrink_candidates(case):
     for i in range(len(ops)):
         yield {"ops": ops[:i] + ops[i + 1:]}
     for i, op in enumerate(ops):
+        if op[0] == "save" and op[2] in LOCAL:
+            continue      # a local class cannot be swapped for A without changing what the picklers can do
         if op[0] == "save":
             if op[6] is not None:
                 yield {"ops": ops[:i] + [op[:6] + [None]] + ops[i + 1:]}
